@@ -840,6 +840,16 @@ def module_record_classes(tree):
     return out
 
 
+def package_record_classes(pm):
+    """the record classes of every module of the package (a value class may live next to the values it describes and be
+    used from the update machinery)"""
+    out = {}
+    for m, (r, t, _) in pm.modules.items():
+        for k, v in module_record_classes(t).items():
+            out.setdefault(k, v)
+    return out
+
+
 def module_dict_tables(tree):
     return {st_.targets[0].id: st_.value for st_ in tree.body if isinstance(st_, ast.Assign)
             and len(st_.targets) == 1 and isinstance(st_.targets[0], ast.Name) and isinstance(st_.value, ast.Dict)}
